@@ -121,6 +121,69 @@ func c16Gen(r *proto.Rng) c16Case {
 		// cross-enum concatenation twin: enum A {B_C} + enum AB {C}
 		cs.Twin = "cross-enum"
 		cs.Enums = []c16Enum{{Name: "A", Values: []string{"B_C", "x"}}, {Name: "AB", Values: []string{"C", "y"}}}
+	} else if r.Chance(1, 6) {
+		// cross-enum twins from a grammar: (type name, value) pairs whose concatenation coincides under default
+		// casing (Type+Value), raw casing (Type_VALUE) or a mix of the two; either enum may be declared/used first and
+		// each may get its own casing
+		cs.Twin = "cross-enum-grammar"
+		if r.Chance(1, 2) {
+			// constructed collision: the same constant name arises from two (type, value) pairs
+			ws := []string{"Foo", "Bar", "X", "A", "B", "C", "Baz", "Q1"}
+			w1, w2, w3 := proto.Pick(r, ws), proto.Pick(r, ws), proto.Pick(r, ws)
+			var e1, e2 c16Enum
+			var c1, c2 string
+			switch r.Intn(3) {
+			case 0: // raw + raw: w1_w2_w3
+				e1, e2, c1, c2 = c16Enum{Name: w1, Values: []string{w2 + "_" + w3}}, c16Enum{Name: w1 + "_" + w2, Values: []string{w3}}, "raw", "raw"
+			case 1: // raw + default: w1_w2w3
+				e1, e2, c1, c2 = c16Enum{Name: w1, Values: []string{w2 + w3}}, c16Enum{Name: w1 + "_" + w2, Values: []string{w3}}, "raw", "default"
+			default: // default + default: w1w2w3
+				e1, e2, c1, c2 = c16Enum{Name: w1, Values: []string{w2 + "_" + w3}}, c16Enum{Name: w1 + w2, Values: []string{w3}}, "default", "default"
+			}
+			if r.Chance(1, 2) {
+				e1.Values = append([]string{"zz"}, e1.Values...)
+			}
+			if r.Chance(1, 2) {
+				e2.Values = append(e2.Values, "yy")
+			}
+			cs.Cfg.CasingEnums = map[string]string{e1.Name: c1, e2.Name: c2}
+			if r.Chance(1, 3) { // the same through the global settings
+				if c1 == c2 {
+					cs.Cfg.CasingEnums = nil
+					cs.Cfg.CasingAllEnums = c1
+				}
+			}
+			if r.Chance(1, 2) {
+				e1, e2 = e2, e1
+			}
+			cs.Enums = []c16Enum{e1, e2}
+			return cs
+		}
+		tn := []string{"A", "AB", "A_B", "Foo", "Foo_Bar", "FooBar"}
+		vn := []string{"B_C", "C", "BC", "Bar_X", "X", "BarX", "BAR_X", "B_X", "_C", "Bar_x"}
+		a, b := proto.Pick(r, tn), proto.Pick(r, tn)
+		for b == a {
+			b = proto.Pick(r, tn)
+		}
+		pickVals := func() []string {
+			out := []string{}
+			seen := map[string]bool{}
+			for len(out) < 1+r.Intn(3) {
+				v := proto.Pick(r, vn)
+				if !seen[v] {
+					seen[v] = true
+					out = append(out, v)
+				}
+			}
+			return out
+		}
+		cs.Enums = []c16Enum{{Name: a, Values: pickVals()}, {Name: b, Values: pickVals()}}
+		cs.Cfg.CasingEnums = map[string]string{}
+		for _, e := range cs.Enums {
+			if r.Chance(2, 3) {
+				cs.Cfg.CasingEnums[e.Name] = proto.Pick(r, cas[2:])
+			}
+		}
 	} else if r.Chance(1, 4) {
 		e2 := c16Enum{Name: "Second"}
 		for i := 0; i < 1+r.Intn(3); i++ {
@@ -323,6 +386,12 @@ func c16Run(c *Ctx, cs c16Case) {
 		c.Res.NonTrivial(key + "|err")
 		msg := out.Err.Error()
 		mm := c16ConflictRe.FindStringSubmatch(msg)
+		if mm == nil && strings.Contains(msg, "conflicting definition for") && len(models) == 2 && models[0].goType == models[1].goType {
+			// the two enums' Go TYPE names coincide under the casing in force (model: names.enum): a clash that must be
+			// reported (C09), not a C16 matter
+			c.Res.Count("outcome:type-name-clash-reported")
+			return
+		}
 		if mm == nil {
 			fail("violation", "unexpected-generation-error", "valid enum program rejected: "+msg, msg, nil)
 			return
